@@ -117,12 +117,29 @@ def _pw(case, rec, rng):
     # settings classes: declared powers + recommended normalisers -> power 0 for nonlocal features; normalisers scale
     fam = FAMS[case["idx"] % len(FAMS)]
     fs = gen.family_settings(fam, rng)
+    if case["idx"] % 3 == 0:
+        # fractional-Laplacian block with every optional group (l1 dots, F^d dots, F^dd) - added after a seeded change of
+        # the index bookkeeping in FracLaplSettings.get_reasonable_normalizer (ld_dots together with ndd) went unnoticed
+        nk0 = int(rng.integers(1, 5))
+        slist = sorted(set(float(x) for x in rng.choice([-1.0, -0.5, -0.25, 0.25, 0.5, 0.75, 1.0], size=nk0, replace=False)))
+        nk0 = len(slist)
+        full = case["idx"] % 6 == 0      # every second one has all optional groups non-empty
+        nk1 = int(rng.integers(1 if full else 0, nk0 + 1))
+        nd1 = int(rng.integers(1 if full else 0, nk1 + 1))
+        ndd = int(rng.integers(1 if full else 0, nd1 + 1))
+        pool1 = [(-1, j) for j in range(nk1)] + [(i, j) for i in range(nk1) for j in range(i, nk1)]
+        l1 = [pool1[int(i)] for i in rng.permutation(len(pool1))[: int(rng.integers(0, min(3, len(pool1)) + 1))]] if pool1 else []
+        poold = [(-1, j) for j in range(nd1)] + [(i, j) for i in range(nd1) for j in range(nd1)]
+        ld = [poold[int(i)] for i in rng.permutation(len(poold))[: int(rng.integers(1 if full else 0, min(3, len(poold)) + 1))]] if poold else []
+        fl = st.FracLaplSettings(slist, nk0, nk1, l1, nd1=nd1, ld_dots=ld, ndd=ndd)
+        fam = "nlof[nk1=%d,nl1=%d,nd1=%d,nld=%d,ndd=%d]" % (nk1, len(l1), nd1, len(ld), ndd)
+        fs = gen.feature_settings(str(rng.choice(["npa", "nst", "np", "ns"])), None, None, fl)
     rec.tag("family", fam)
     u_raw = np.asarray(fs.get_feat_usps(), dtype=float)
     u_norm = np.asarray(fs.get_feat_usps(with_normalizers=True), dtype=float)
     nsl = fs.sl_settings.nfeat
     rec.check("normalised_nonlocal_power_zero", float(np.max(np.abs(u_norm[nsl:]))) if fs.nfeat > nsl else 0.0, 1e-12,
-              mechanism="get_reasonable_normalizer:power!=0[%s]" % type(fs.nldf_settings if fs.has_nldf else fs.sdmx_settings).__name__,
+              mechanism="get_reasonable_normalizer:power!=0[%s]" % type(fs.nldf_settings if fs.has_nldf else (fs.sdmx_settings if not fam.startswith("nlof") else fs.nlof_settings)).__name__,
               detail={"usps": u_norm.tolist()})
     rec.require("lengths_agree", len(u_raw) == fs.nfeat == len(fs.normalizers.get_usps()), mechanism="usps-length[%s]" % fam)
     # normaliser list: feed raw features scaled by their declared powers, output must scale by u_norm
